@@ -186,6 +186,13 @@ func mutatedThrough(p *core.Program, v ssa.Value, depth int) string {
 	if depth > 5 || v.Referrers() == nil {
 		return ""
 	}
+	switch v.Type().Underlying().(type) {
+	case *types.Map, *types.Slice, *types.Pointer, *types.Tuple, *types.Interface:
+	default:
+		if _, isIter := v.(*ssa.Range); !isIter {
+			return "" // a copy of a value (a key, a number, a string): nothing is reached through it
+		}
+	}
 	for _, r := range *v.Referrers() {
 		switch t := r.(type) {
 		case *ssa.DebugRef, *ssa.If, *ssa.Lookup, *ssa.Index:
